@@ -8,9 +8,10 @@ RULE = ('(a) histories over 5 stations issuing Discover / Reset / Hello / Probe 
         'and (after a Reset check) compared with the rule. distinct = distinct (state, ToS class, opcode, reply) tuples + sweep cells')
 def scenarios(rng, tier):
     s = Scn(); n = 50 if tier == 'quick' else 2000
-    st = [mac(i) for i in range(1, 6)]; own = OWN0
+    st0 = [mac(i) for i in range(1, 6)]; st = st0; own = OWN0
     for k in range(n):
         s.start('arb_%d' % k)
+        st = TWINS[:5] if k % 3 == 1 else TWINS[2:] if k % 3 == 2 else st0
         active = None
         for i in range(60):
             r = rng.random(); X = rng.choice(st)
@@ -29,6 +30,7 @@ def scenarios(rng, tier):
     # restricted-domain histories: commands only from the tracked mapper
     for k in range(n):
         s.start('dom_%d' % k); tr = MapperTracker()
+        st = TWINS if k % 2 else st0
         for i in range(50):
             r = rng.random(); X = rng.choice(st); tos = rng.choice([0, 0, 1, 2, 7])
             if r < 0.45: fr = discover(X, tos=tos, gen=rng.randrange(65536), seq=rng.randrange(65536), esrc=X if rng.random() < 0.8 else mac(50))
